@@ -130,13 +130,81 @@ def oracle_idle_death(rec):
     return None, 1
 
 
+def gen_apply_failure(rng, k, sms):
+    """a failure in the APPLY phase of a pool -- worker_init raising (with or without an init timeout configured), an apply
+    task running into its timeout, an apply task raising -- and then: a map-family call (sometimes with a progress bar),
+    another apply batch, another map call.  All of them must behave as on a fresh pool."""
+    sm = sms[k % len(sms)]
+    nj = rng.choice([1, 2, 3])
+    mode = ['init_raise', 'init_raise_t', 'task_timeout', 'task_raise'][k % 4]
+    if sm == 'threading' and mode == 'task_timeout':
+        mode = 'task_raise'
+    beh = []
+    first = {'kind': 'apply_batch', 'jobs': [{'id': i, 'args': [1700 + i], 'cbs': [False, False]} for i in range(rng.choice([1, 3]))],
+             'get_timeout': 20, 'no_join': True, 'apply_failure': mode, 'params': {}}
+    if mode.startswith('init_raise'):
+        first['init_raises'] = [rng.choice(['ValueError', 'CustomError']), 4242 + k]
+        if mode == 'init_raise_t':
+            first['params'] = {'worker_init_timeout': 30, 'worker_exit_timeout': 30}
+    elif mode == 'task_timeout':
+        first['jobs'][0]['timeout'] = 0.4
+        beh.append({'at': 1700, 'do': 'block', 's': 30})
+    else:
+        beh.append({'at': 1700, 'do': 'raise', 'exc': 'ValueError'})
+    mk = lambda base, pb: {'kind': rng.choice(['map', 'map_unordered', 'imap', 'imap_unordered']), 'n': rng.choice([3, 8]),
+                           'input': 'list', 'elem': 'scalar', 'base': base,
+                           'params': dict({'chunk_size': rng.choice([1, 2])}, **({'progress_bar': True} if pb else {}))}
+    calls = [first, mk(2000, rng.random() < 0.6),
+             {'kind': 'apply_batch', 'jobs': [{'id': i, 'args': [3700 + i], 'cbs': [False, False]} for i in range(3)], 'get_timeout': 20,
+              'no_join': True},
+             mk(4000, rng.random() < 0.3), {'kind': 'stop_and_join'}]
+    return {'id': f'af{k}', 'pool': {'n_jobs': nj, 'start_method': sm, 'keep_alive': rng.random() < 0.5}, 'calls': calls, 'budget': 75,
+            'behaviour': {'task': beh}, 'family': 'apply_failure'}
+
+
+def oracle_apply_failure(rec):
+    res = rec['result']
+    calls = rec['scenario']['calls']
+    first, o = calls[0], res['calls'][0]
+    mode = first['apply_failure']
+    if o.get('outcome') != 'ok':
+        return f"the failing apply batch ({mode}) itself raised {o['exc']['type']}: {o['exc']['args'][:100]}", 1
+    vals = o.get('value', [])
+    if mode.startswith('init_raise'):
+        exc, tag = first['init_raises']
+        for v in vals:
+            if v[0] != 'exc' or v[1] != exc or str(tag) not in v[2]:
+                return f"apply with a raising worker_init ({exc}, {tag}): get() gave {str(v)[:140]}", 1
+    else:
+        v = vals[0]
+        want = 'TimeoutError' if mode == 'task_timeout' else 'ValueError'
+        if v[0] != 'exc' or v[1] != want:
+            return f"failing apply task ({mode}): get() gave {str(v)[:140]}, expected {want}", 1
+        for j, v in list(zip(first['jobs'], vals))[1:]:
+            if v[0] != 'ok' or not (isinstance(v[1], list) and v[1][:2] == ['R', ['tuple', [j['args'][0]]]]):
+                return f"apply job {j['args'][0]} next to a failing one ({mode}) returned {str(v)[:120]}", 1
+    n = 1
+    for c, o in list(zip(calls, res['calls']))[1:]:
+        if c['kind'] == 'apply_batch':
+            msg = S.check_apply_batch(c, o)
+        elif 'n' in c:
+            msg = (f"raised {o['exc']['type']}: {o['exc']['args'][:120]}" if o.get('outcome') != 'ok' else S.check_value(c, o))
+        else:
+            continue
+        n += 1
+        if msg:
+            return f"after a failure in the apply phase ({mode}), call {c['kind']} base={c.get('base')}: {msg}", n
+    return None, n
+
+
 def analyse(recs):
     bad, hangs, n = [], [], 0
     for rec in recs:
         if rec['status'] != 'done' or not rec['result']:
             hangs.append(rec)
             continue
-        msg, k = oracle_idle_death(rec) if rec['scenario'].get('family') == 'idle_death' else oracle(rec)
+        fam = rec['scenario'].get('family')
+        msg, k = oracle_idle_death(rec) if fam == 'idle_death' else oracle_apply_failure(rec) if fam == 'apply_failure' else oracle(rec)
         n += k
         if msg:
             bad.append((rec, msg))
@@ -150,6 +218,7 @@ def run(ctx):
     sms = ['fork', 'fork', 'threading', 'forkserver', 'spawn'] if ctx['tier'] == 'quick' else S.START_METHODS
     scens = [S.gen_history(rng, k, ctx['tier'], sms, failures=True) for k in range(44 if ctx['tier'] == 'quick' else 400)]
     scens += [gen_idle_death(rng, k, sms) for k in range(9 if ctx['tier'] == 'quick' else 60)]
+    scens += [gen_apply_failure(rng, k, sms) for k in range(12 if ctx['tier'] == 'quick' else 80)]
     recs = runner.run_many(scens, 'c06', jobs=10)
     bad, hangs, checked = analyse(recs)
     out_v = []
@@ -170,7 +239,9 @@ def run(ctx):
                 modes[c['fail']] = modes.get(c['fail'], 0) + 1
     cov = dict(evaluations=len(recs), distinct_nontrivial=len({str(r['scenario']['pool']) + str(r['scenario']['calls']) for r in recs if r['status'] == 'done'}),
                rule="histories of 2-4 map-family calls and setters on one pool where calls fail by task exception (3 exception "
-                    "shapes), task timeout, SIGKILLed worker, nested-map misuse, or are closed early; oracle: the failing call "
+                    "shapes), task timeout, SIGKILLed worker, nested-map misuse, or are closed early; idle-death family; apply-phase failures "
+                    "(raising worker_init with/without init timeout, apply task timeout / exception) followed by map calls "
+                    "with and without a progress bar and further apply batches; oracle: the failing call "
                     "raises the right error, every later call returns the sequential reference (either ordering mode, own "
                     "function, current shared objects), starts fresh workers (main's own log) and never surfaces the earlier error",
                samples=[dict(scenario=recs[0]['scenario'])], calls_checked=checked, failure_modes=modes,
